@@ -115,6 +115,52 @@ def _closure_of(raw, op):
     return None
 
 
+ADAPTERS = ("std::iter::Iterator::map", "std::iter::Iterator::filter_map", "std::iter::Iterator::filter",
+            "std::iter::Iterator::copied", "std::iter::Iterator::cloned", "std::iter::Iterator::inspect")
+
+
+def _single_def(raw, l):
+    """the only whole-local definition of l: ('assign', rv) | ('call', block index) | None"""
+    found = None
+    n = 0
+    for i, blk in enumerate(raw["blocks"]):
+        for st in blk["stmts"]:
+            if st.get("k") == "assign" and st["place"]["l"] == l and not st["place"]["p"]:
+                n += 1
+                found = ("assign", st["rv"])
+        t = blk["term"]
+        if t["k"] == "call" and t["dest"]["l"] == l and not t["dest"]["p"]:
+            n += 1
+            found = ("call", i)
+    return found if n == 1 else None
+
+
+def _adapter_site(raw, op, depth=0):
+    """block index of the lazy-adapter call (map / filter_map / filter ...) that built the iterator `op` refers to"""
+    if depth > 8 or op.get("k") not in ("copy", "move"):
+        return None
+    pl = op["place"]
+    if any(e.get("k") != "deref" for e in pl["p"]):
+        return None
+    d = _single_def(raw, pl["l"])
+    if d is None:
+        return None
+    if d[0] == "assign":
+        rv = d[1]
+        if rv["k"] == "ref" and not any(e.get("k") != "deref" for e in rv["place"]["p"]):
+            return _adapter_site(raw, {"k": "copy", "place": {"l": rv["place"]["l"], "p": []}}, depth + 1)
+        if rv["k"] == "use":
+            return _adapter_site(raw, rv["op"], depth + 1)
+        return None
+    t = raw["blocks"][d[1]]["term"]
+    name = norm(t["f"].get("def") or "")
+    if name in ADAPTERS:
+        return d[1]
+    if name in ("std::iter::IntoIterator::into_iter", "std::iter::Iterator::by_ref") and t["args"]:
+        return _adapter_site(raw, t["args"][0], depth + 1)
+    return None
+
+
 class Desugarer:
     def __init__(self, P, key, policy):
         self.P = P
@@ -348,6 +394,56 @@ class Desugarer:
             some = ret_block(B.agg(OPT, "Some", [args[1]]))
             none = ret_block(B.agg(OPT, "None", []))
             return finish([], B.switch_bool(args[0], some, none))
+        if name == "std::iter::Iterator::next" and len(args) == 1:
+            site = _adapter_site(raw, args[0])
+            if site is not None and site != bi:
+                at = raw["blocks"][site]["term"]
+                aname = norm(at["f"]["def"]).rsplit("::", 1)[-1]
+                fn = _closure_of(raw, at["args"][1]) if len(at["args"]) > 1 else None
+                if aname in ("copied", "cloned") or fn:
+                    inner = at.get("fused_inner")
+                    if inner is None:
+                        inner = B.local()
+                        raw["blocks"][site]["stmts"].append(B.assign(inner, B.use(dict(at["args"][0], k="copy"))))
+                        at["fused_inner"] = inner
+                    a = B.local()
+                    rin = B.local()
+                    nf = {"def": "std::iter::Iterator::next", "written": "std::iter::Iterator::next", "resolved": None,
+                          "resolved_args": None, "ikind": "Item", "local": False}
+                    sw_blk = B.block()
+                    header = B.block([B.assign(rin, {"k": "ref", "mut": True, "place": {"l": inner, "p": []}})],
+                                     {"k": "call", "f": nf, "args": [B.mv(rin)], "dest": {"l": a, "p": []}, "target": sw_blk,
+                                      "unwind": None, "span": B.span})
+                    none = ret_block(B.agg(OPT, "None", []))
+                    if aname == "map":
+                        some = call_then(fn, [pay(a, OPT, "Some")], lambda r: B.agg(OPT, "Some", [r]))
+                    elif aname in ("copied", "cloned"):
+                        some = ret_block(B.use(B.mv(a)))
+                    elif aname == "inspect":
+                        r = B.local()
+                        ref = B.local()
+                        after = ret_block(B.use(B.mv(a)))
+                        entry = self.call(B, fn, [B.mv(ref)], r, after, stack)
+                        some = B.block([B.assign(ref, {"k": "ref", "mut": False, "place": {"l": a, "p": B.payload(a, OPT, "Some")}})],
+                                       B.goto(entry))
+                    elif aname == "filter_map":
+                        r = B.local()
+                        hit = ret_block(B.use(B.mv(r)))
+                        sts2, sw2 = B.switch_variant(r, OPT, {"Some": hit, "None": header})
+                        after = B.block(sts2, sw2)
+                        some = self.call(B, fn, [pay(a, OPT, "Some")], r, after, stack)
+                    else:   # filter
+                        r = B.local("bool")
+                        ref = B.local()
+                        hit = ret_block(B.use(B.mv(a)))
+                        after = B.block([], B.switch_bool(B.mv(r), hit, header))
+                        entry = self.call(B, fn, [B.mv(ref)], r, after, stack)
+                        some = B.block([B.assign(ref, {"k": "ref", "mut": False, "place": {"l": a, "p": B.payload(a, OPT, "Some")}})],
+                                       B.goto(entry))
+                    sts, sw = B.switch_variant(a, OPT, {"Some": some, "None": none})
+                    raw["blocks"][sw_blk]["stmts"] = sts
+                    raw["blocks"][sw_blk]["term"] = sw
+                    return finish([], B.goto(header))
         if name in ("std::iter::Iterator::try_for_each", "std::iter::Iterator::for_each",
                     "std::iter::Iterator::any", "std::iter::Iterator::all") and fnarg(1):
             fn = fnarg(1)
